@@ -355,7 +355,7 @@ where
                 Distribution::BinaryFixed(hw) => u.fill_binary_hw(0, *hw, source_xu),
                 Distribution::BinaryProb(prob) => u.fill_binary_prob(0, *prob, source_xu),
                 Distribution::BinaryBlock(block_size) => u.fill_binary_block(0, *block_size, source_xu),
-                Distribution::ZERO => {}
+                Distribution::ZERO => u.zero(),
             }
 
             self.svp_prepare(&mut u_dft, 0, &u, 0);
